@@ -113,17 +113,21 @@ def model_check(ctx, kd):
         ctx.cov["actions_never_taken"] = [a for a in r.get("actions_never_taken", []) if a.startswith("Ribbit!")]
     ctx.stage("mc", family="model", distinct_states=r["distinct"], depth=r.get("depth"), properties=",".join(inv + live), wall_s=r["wall_s"])
     # teeth: the same properties on models that must fail them
-    teeth = {}
-    for name, arch, kdev, conns, want in (("sequential_server", "sequential", (), "{1, 2}", "Independence"),
-                                          ("sequential_no_http_timeout", "sequential", ("F15f",), "{1, 2}", "liveness"),
-                                          ("F15f_no_http_timeout", "task_per_conn", ("F15f",), "{1, 2}", "liveness")):
+    def tooth(t):
+        name, arch, kdev, conns, want = t
         i2 = [i for i in inv if i != "Independence"] if want == "liveness" else inv
         props = ["NeverHeld"] if name.startswith("F15f") else (["ValidAnswered"] if want == "liveness" else [])
-        cfg = mc_cfg(ctx, f"mc_model_{name}.cfg", "model", kd=kdev, arch=arch, conns=conns, spec="MCSpec", invariants=i2, properties=props)
-        r = lib.tlc(ctx, MODULE_MC, cfg, timeout=900, expect_violation=True)
-        live_bad = r["property_violated"] or re.search(r"Temporal propert(y|ies) .*violated", r["text"]) is not None
-        got = "Independence" if "Independence" in r["invariant_violated"] else ("liveness" if live_bad else "none")
-        teeth[name] = {"expected": want, "violated": got}
+        c = mc_cfg(ctx, f"mc_model_{name}.cfg", "model", kd=kdev, arch=arch, conns=conns, spec="MCSpec", invariants=i2, properties=props)
+        rr = lib.tlc(ctx, MODULE_MC, c, timeout=900, expect_violation=True, workers=2)
+        live_bad = rr["property_violated"] or re.search(r"Temporal propert(y|ies) .*violated", rr["text"]) is not None
+        got = "Independence" if "Independence" in rr["invariant_violated"] else ("liveness" if live_bad else "none")
+        return name, {"expected": want, "violated": got}
+
+    from concurrent.futures import ThreadPoolExecutor
+    with ThreadPoolExecutor(max_workers=3) as ex:
+        teeth = dict(ex.map(tooth, (("sequential_server", "sequential", (), "{1, 2}", "Independence"),
+                                    ("sequential_no_http_timeout", "sequential", ("F15f",), "{1, 2}", "liveness"),
+                                    ("F15f_no_http_timeout", "task_per_conn", ("F15f",), "{1, 2}", "liveness"))))
     ctx.cov["model_teeth"] = teeth
     ctx.stage("mc-teeth", **{k: v["violated"] for k, v in teeth.items()})
     if any(v["expected"] != v["violated"] for v in teeth.values()):
@@ -132,7 +136,7 @@ def model_check(ctx, kd):
 
 def generate(ctx, family, conc=False):
     cfg = mc_cfg(ctx, f"mc_{family}.cfg", family, conns="{1, 2}" if conc else "{}", tier=ctx.tier, seed=ctx.seed,
-                 nsample=0 if family != "sample" else (400 if ctx.quick else 6000),
+                 nsample=0 if family != "sample" else (240 if ctx.quick else 6000),
                  init="ConcInit" if conc else "GenInit", next_="ConcNext" if conc else "GenNext",
                  invariants=("Emit", "Graded") + (("GridDump",) if family == "unknown" else ()))
     progs = ctx.path(f"prog_{family}.ndjson")
@@ -213,10 +217,14 @@ def program_of(evs):
     return {"fam": evs[0]["fam"], "cfg": evs[0]["cfg"], "db": evs[0]["db"], "steps": steps}
 
 
-def judge_trace(ctx, trace, source, kd, classify=True):
+def judge_only(ctx, trace, source, kd):
     cfg = t_cfg(ctx, kd)
     v = lib.judge(ctx, MODULE_T, cfg, trace, max_events=2500)
     v["violations"] = sorted(set(v["violations"]))
+    return v
+
+
+def conclude(ctx, v, trace, source, classify=True):
     ctx.stage("judge", source=source, events=v["events"], queries=v.get("queries"), rows=v.get("rows"),
               violations=len(v["violations"]), deviations=len(v["deviations"]), wall_s=v["wall_s"])
     if v.get("ungraded"):
@@ -224,6 +232,10 @@ def judge_trace(ctx, trace, source, kd, classify=True):
     if classify:
         lib.classify_trace(ctx, v, trace, source, program_of=program_of)
     return v
+
+
+def judge_trace(ctx, trace, source, kd, classify=True):
+    return conclude(ctx, judge_only(ctx, trace, source, kd), trace, source, classify)
 
 
 # --------------------------------------------------------------------------- self-test, replay
@@ -325,9 +337,21 @@ def run(ctx):
 
     th = threading.Thread(target=slow_families)
     th.start()
+    from concurrent.futures import ThreadPoolExecutor
+    judging = ThreadPoolExecutor(max_workers=2)      # family k is judged while family k+1 is generated and executed
+    pending = []
+
+    def judged(fam, progs, trace):
+        v = judge_only(ctx, trace, fam, kd)
+        if fam == "fields":
+            selftest(ctx, trace, kd)
+        if fam == "conc":
+            selftest_raw(ctx, trace, kd)
+        return v
+
     try:
-        model_check(ctx, kd)
-        fams = ["unknown", "fields", "newest", "conc"] + (["sample"] if True else [])
+        model = judging.submit(model_check, ctx, kd)
+        fams = ["unknown", "fields", "newest", "conc", "sample"]
         for fam in fams:
             progs, n = generate(ctx, fam, conc=(fam == "conc"))
             trace = execute(ctx, fam, progs, n)
@@ -337,22 +361,21 @@ def run(ctx):
                 ls = lib.read_lines(trace)[:4000]
                 s, e = lib.run_of_line(ls, min(len(ls) - 1, 900))
                 ctx.cov["samples"].append({"source": f"MC_Ribbit family={fam}", "trace": [json.loads(x) for x in ls[s:e]][:12]})
-            judge_trace(ctx, trace, f"MC_Ribbit family={fam}", kd)
-            if fam == "fields":
-                selftest(ctx, trace, kd)
-            if fam == "conc":
-                selftest_raw(ctx, trace, kd)
-            os.remove(trace)
-            os.remove(progs)
+            pending.append((fam, progs, trace, judging.submit(judged, fam, progs, trace)))
+        th.join()
+        if "error" in slow:
+            raise slow["error"]
+        for fam in ("slow", "flood"):
+            progs, n, trace = slow[fam]
+            total += n
+            distinct += lib.count_distinct(progs)[1]
+            pending.append((fam, progs, trace, judging.submit(judge_only, ctx, trace, fam, kd)))
+        model.result()
+        for fam, progs, trace, fut in pending:
+            conclude(ctx, fut.result(), trace, f"MC_Ribbit family={fam}")
     finally:
         th.join()
-    if "error" in slow:
-        raise slow["error"]
-    for fam in ("slow", "flood"):
-        progs, n, trace = slow[fam]
-        total += n
-        distinct += lib.count_distinct(progs)[1]
-        judge_trace(ctx, trace, f"MC_Ribbit family={fam}", kd)
+        judging.shutdown(wait=True, cancel_futures=True)
     ctx.cov["traces_validated_against_impl"] = total
     ctx.cov["evaluations"] = total
     ctx.cov["distinct_nontrivial"] = distinct
